@@ -173,7 +173,11 @@ Definition rescue_allow (rate burst now n : Z) (r : rescue_st) : rescue_st * boo
     let lvl := rescue_level rate burst now r in
     if (n <=? burst) && (n * 1000 <=? lvl) then (Some (lvl - n * 1000, now), true) else (r, false).
 
-Inductive ctxs := CtxOk | CtxCanceled | CtxDeadline.
+(* CtxCanceled / CtxDeadline: the context is already done when the call is made (it never reaches
+   the server). CtxInFlight: the deadline expires WHILE the script call is in flight (Redis answers
+   later than the caller waits): the caller gets the context error; the server may (executed = true)
+   or may not have run the script by then. *)
+Inductive ctxs := CtxOk | CtxCanceled | CtxDeadline | CtxInFlight (executed : bool).
 (* monitorStarted together with the program point of waitForRedis:
    MRunning = in the ticker loop; MExiting = stored redisAlive=1, deferred monitorStarted=false pending *)
 Inductive mon := MIdle | MRunning | MExiting.
@@ -201,6 +205,13 @@ Definition eval_token (c : tcfg) (w : world) (now_s n : Z) (cx : ctxs) : store *
         | None => (rstore w, EOther)
         end
       else (rstore w, EOther)
+  | CtxInFlight true =>
+      if eval_up w then
+        match token_script (clock w) (c_ktok c) (c_kts c) (c_rate c) (c_burst c) now_s n (rstore w) with
+        | Some (s', _) => (s', ECtx)       (* tokens possibly consumed on the server, the caller is refused *)
+        | None => (rstore w, ECtx)
+        end
+      else (rstore w, ECtx)
   | _ => (rstore w, ECtx)
   end.
 
